@@ -247,13 +247,16 @@ def compS (cx : Ctx) (lp : LoopCtx) : Stmt → St → Code × St
   | .inc x, st => (loadVar cx st.scopes x ++ [.ins .inc] ++ storeVar cx st.scopes x, st)
   | .dec x, st => (loadVar cx st.scopes x ++ [.ins .dec] ++ storeVar cx st.scopes x, st)
   | .varDecl x isBool init, st =>
-    -- codegen.go:738-772: the local is allocated BEFORE the initialiser is walked
-    let st1 := st.newLocal x
+    -- GenDecl (codegen.go:736-790): the value (or the type's default) is walked first, the local is allocated when it
+    -- is stored — the scope of `x` begins after its ValueSpec, so `var x T = e` compiles exactly like `x := e`
     match init with
-    | none => ([.ins (if isBool then .pushF else .pushInt 0)] ++ storeVar cx st1.scopes x, st1)
+    | none =>
+      let st1 := st.newLocal x
+      ([.ins (if isBool then .pushF else .pushInt 0)] ++ storeVar cx st1.scopes x, st1)
     | some e =>
-      let (ce, nl1) := compE cx st1.scopes e .val st1.nl
-      (ce ++ storeVar cx st1.scopes x, { st1 with nl := nl1 })
+      let (ce, nl1) := compE cx st.scopes e .val st.nl
+      let st1 := { st with nl := nl1 }.newLocal x
+      (ce ++ storeVar cx st1.scopes x, st1)
   | .exprStmt e, st =>
     let (ce, nl1) := compE cx st.scopes e .val st.nl
     let nres := match e with
@@ -502,15 +505,10 @@ def labelOffset (c : Code) (l : Nat) : Option Nat :=
   let fpos := finalPositions (c.zip forms) 0
   labelPos c fpos l
 
-/-- the offset under which the debug info lists method `i` of `n`: addMethodsToDebugInfo (debug.go:234-239) skips
-    every scope with `rng.Start == rng.End`, which is meant for functions that were never compiled but also hits a
-    compiled function that consists of a single instruction (a lone RET). -/
-def debugOffset (c : Code) (n i : Nat) : Option Nat :=
-  match labelOffset c i with
-  | none => none
-  | some off =>
-    let next := if i + 1 < n then (labelOffset c (i + 1)).getD 0 else (assemble c).length
-    if next == off + 1 then none else some off
+/-- the offset under which the debug info lists method `i` of `n`: every function that was compiled is listed
+    (addMethodsToDebugInfo, debug.go:236-243, skips exactly the scopes that were never converted) with the final
+    offset of its first instruction. -/
+def debugOffset (c : Code) (_n i : Nat) : Option Nat := labelOffset c i
 
 /-- final byte offset of item `i` of `c` (the script length for an index past the end). -/
 def fposAt (c : Code) (i : Nat) : Nat :=
